@@ -93,6 +93,16 @@ CHECKS = {
          "Every complete interleaving at suspension points of two concurrent ceremonies (no preemption bound) and every interleaving with at most 2 (quick) / 3 (thorough) preemptions of three ceremonies is executed for assert/assert (same and different credential), assert/register, register/register and three-task mixes over Arc<Mutex<_>> and Arc<RwLock<_>> around MemoryStore and Option<Passkey>; after each schedule: no deadlock/livelock, every registered credential present, counters of successful assertions per credential pairwise distinct with maximum equal to the stored value. The lost-update race on the counter is a known finding (10 keys).",
          "Await-point interleavings only; tokio's lock internals trusted; suspension points are owned by harness shims around every store call, inside the lock, and in user validation.",
          "DESIGN.md §2 C19"),
+ "C15": ("exploration",
+         "bounded-exhaustive enumeration of short inputs and of every single deviation (truncation, every byte value, CBOR/JSON/text splices incl. huge declared lengths and deep nesting) of valid seed encodings for 26 public decoders, executed in isolated worker processes with a counting allocator, stack limit and watchdog; explicit-state BFS over CTAPHID packet sequences on the real handler",
+         "The property is unbounded; the check decides its bounded version and says so: all byte strings to length 2 (3), all strings over 8-symbol alphabets to length 5 (7), every one-deviation neighbour (two on short seeds in thorough) of valid encodings of every message type, and all packet sequences to depth 2-4 (3-6) over a 300-packet alphabet with state deduplication through the hook snapshot. A panic, a worker death (abort, stack overflow, refused allocation above 1 GiB), a single allocation above 16 MiB or a case exceeding the time limit is a verdict for that input, keyed by decoder + panic site + class.",
+         "Thresholds are orders of magnitude above normal behaviour; coset/ciborium/serde_json are exercised as dependencies of the decoders; one direct-call panic (AuthenticationRequest::try_from with an out-of-spec P1) is a known finding.",
+         "DESIGN.md §2 C15"),
+ "C18": ("model_checking",
+         "differential enumeration of every CTAP2-level configuration through the inherent methods and through the Ctap2Api trait on identically seeded authenticators, in isolated worker processes with stack limit and watchdog",
+         "All configurations of the C04 product x store contents x two stores x PRF on/off (about 6.7k quick, 13k thorough) and getInfo for every capability are run both ways; result (status byte or the full response including the deterministic signature, fresh ids normalised), store snapshot and store writes must agree; termination is decided by the isolated worker: a stack overflow or watchdog expiry during a trait call is the verdict for that case.",
+         "ECDSA signing is deterministic (RFC 6979), so signatures are compared byte for byte; lookups and capability queries are not an effect and may differ.",
+         "DESIGN.md §2 C18"),
 }
 
 NOT_BUILT = "check not built yet in this revision of the harness (planned per DESIGN.md §2); no claim is made"
